@@ -427,10 +427,16 @@ def process_violation(cfg, prop, tier, seed, run, v, binary):
                 'worker saw %r; fresh replays gave %r/%s and %r/%s' % (v['sig'], a['sig'], a['hash'], b['sig'], b['hash']))
     sig = a['sig']
     budget = cfg.get('shrink_budget', 250)
+    if sig == 'hang':
+        budget = 6     # every test costs a full watchdog period
     tests = [0]
+    t_start = time.time()
+    wall = cfg.get('shrink_wall', 150)
 
     def still_fails(p):
         tests[0] += 1
+        if time.time() - t_start > wall:
+            raise shrinker.Budget()
         return exec_plan(cfg, p, binary)['sig'] == sig
     small = shrinker.minimise(plan, still_fails, budget, cfg.get('shrink_ints', []), cfg.get('shrink_keys'))
     fin = exec_plan(cfg, small, binary)
@@ -494,6 +500,7 @@ def main(argv):
     ap.add_argument('--workers', type=int)
     ap.add_argument('--no-build', action='store_true')
     ap.add_argument('--no-evidence', action='store_true')
+    ap.add_argument('--census', action='store_true', help='no gating/minimisation: histogram of raw violation signatures')
     ap.add_argument('--dump-hashes', help='write run->trace hash map to this file (determinism self-test)')
     args = ap.parse_args(argv)
     prop = args.id.upper()
@@ -537,6 +544,8 @@ def main(argv):
         nruns = args.runs or tcfg['runs']
         nworkers = args.workers or tcfg.get('workers', 16)
         pool = Pool(cfg, tier, seed, nruns, nworkers, tcfg.get('chunk', 20), tcfg.get('wall_cap', 900), binary)
+        if args.census:
+            pool.stop_after_sigs = 10 ** 9
         pool.run()
         capped = capped or pool.capped
         if pool.worker_errors:
@@ -559,6 +568,14 @@ def main(argv):
             for (b, r) in sorted(all_results):
                 f.write('%s %d %s\n' % (os.path.basename(b), r, all_results[(b, r)][0]))
 
+    if args.census:
+        hist = {}
+        for (binary, r), v in all_viol.items():
+            hist.setdefault(v['sig'], []).append(r)
+        for sig, rs in sorted(hist.items(), key=lambda kv: -len(kv[1])):
+            log('%6d  %s   (first run %d)' % (len(rs), sig, min(rs)))
+        log('census: %d runs, %d violating' % (len(all_results), len(all_viol)))
+        return 0
     # ---- violations: one representative (lowest run) per worker-reported signature
     by_sig = {}
     for (binary, r) in sorted(all_viol):
